@@ -1,20 +1,32 @@
 import Cfdm.Driver.Parse
 import Cfdm.Model.Codec
+import Cfdm.Model.CellMethods
+import Cfdm.Spec.Codec
 /-
 Driver for C01.
 
   C01.write sc=0|1 co=0|1 <field>   → <file>  |  raised:<enum>  |  outside:<reason>
   C01.writeold …                    → the same for the writer without fixes/C01-inserted-axis-auxiliary-coordinate.patch
   C01.read  <file>                  → <field> ## <field> …   (`none` when no field)
+  C01.class <field>                 → A=<0|1> B=<0|1> shared=<0|1>   (membership of the proved classes)
 
 <field> = nc=<name|_> P=<props> D=<id>:<0|1> DA=<axes> A=[key;size;ncdim;unl,…]
           C=[key;type;ncvar;data;axes;bounds;clim;measure;ext;props,…] M=<cms>
-<file>  = D=[name:size:unl,…] V=[name;dims;isStr;data;attrs;bounds;clim;coords;measures;anc;cms,…]
+          R=[key;ncvar;coords;params;datum;terms,…]
+<file>  = D=[name:size:unl,…] V=[name;dims;isStr;data;attrs;bounds;clim;coords;measures;anc;words;ft;gm,…]
           G=<props> E=<names>
 props   = `_` | name~value|name~value          names/axes/dims = `n` | a+b+c
 data    = `_` | id:<0|1>                        bounds = `_` | ncvar&ncdim&id:<0|1>&nverts&props
 cms     = `n` | axes^method^quals&axes^method^quals      measures = `n` | measure:var+measure:var
-Blanks inside names are written `·`; no name contains any of ,;+~:=[]|&^#.
+terms   = `n` | term:key+term:_                 ft = `n` | term:var+term:var
+gm      = `n` | var&var^coord+coord             (`var` alone: the short form of the attribute)
+words   = the `cell_methods` attribute after the reader's two substitutions and `split()`, `n` | w+w+w
+Blanks inside names are written `·`; no name contains any of ,;+~:=[]|&^#.  The words of a
+`cell_methods` attribute and the values of cell method qualifiers are percent-encoded (`%28` = `(`).
+
+`C01.read` answers with the fields predicted for the reader with the proposed patches; when the
+reader as it is (units of a cell method interval: fixes/C01-cell-method-interval-units.patch) is
+predicted to give something else, ` %%OLD%% ` and that prediction follow.
 -/
 namespace Cfdm.Driver.C01
 open Cfdm.Driver Cfdm.Codec
@@ -75,7 +87,7 @@ def showBounds : Option MBounds → String
   | none => "_"
   | some b => showOpt b.ncvar ++ "&" ++ showOpt b.ncdim ++ "&" ++ showArr (some b.data) ++ "&" ++ toString b.nverts ++ "&" ++ showProps b.props
 
-def typeNames : List (String × CType) := [("dim", .dim), ("aux", .aux), ("msr", .msr), ("fan", .fan)]
+def typeNames : List (String × CType) := [("dim", .dim), ("aux", .aux), ("msr", .msr), ("fan", .fan), ("dan", .dan)]
 def parseType (s : String) : Option CType := (typeNames.find? (·.1 == s)).map (·.2)
 def showType (t : CType) : String := ((typeNames.find? (fun p => p.2 = t)).map (·.1)).getD "?"
 
@@ -111,21 +123,106 @@ def showEntry (e : Entry) : String :=
   String.intercalate ";" [enc e.key, showType e.con.ctype, showOpt e.con.ncvar, showArr e.con.data, showNames e.axes,
     showBounds e.con.bounds, showBool e.con.climatology, showOpt e.con.measure, showBool e.con.external, showProps e.con.props]
 
+/-! Percent-encoding of arbitrary words. -/
+
+def hexDigit (n : Nat) : Char := if n < 10 then Char.ofNat (48 + n) else Char.ofNat (55 + n)
+def hexVal (c : Char) : Option Nat :=
+  if '0' ≤ c ∧ c ≤ '9' then some (c.toNat - 48)
+  else if 'A' ≤ c ∧ c ≤ 'F' then some (c.toNat - 55)
+  else if 'a' ≤ c ∧ c ≤ 'f' then some (c.toNat - 87)
+  else none
+
+def plainChar (c : Char) : Bool := c.isAlphanum || c == '_' || c == '.' || c == '-'
+
+def pctEncodeL : List Char → List Char
+  | [] => []
+  | c :: cs => if plainChar c then c :: pctEncodeL cs else '%' :: hexDigit (c.toNat / 16) :: hexDigit (c.toNat % 16) :: pctEncodeL cs
+
+def pctDecodeL : List Char → List Char
+  | '%' :: a :: b :: cs =>
+    match hexVal a, hexVal b with
+    | some x, some y => Char.ofNat (16 * x + y) :: pctDecodeL cs
+    | _, _ => '%' :: pctDecodeL (a :: b :: cs)
+  | c :: cs => c :: pctDecodeL cs
+  | [] => []
+
+def pctEncode (s : String) : String := String.ofList (pctEncodeL s.toList)
+def pctDecode (s : String) : String := String.ofList (pctDecodeL s.toList)
+
+def parseWords (s : String) : List Cfdm.CellMethods.Word := if s == "n" then [] else (s.splitOn "+").map (fun w => pctDecodeL w.toList)
+/-- (`str.split()` drops the empty word that a cell method without a method leaves.) -/
+def showWords (l : List Cfdm.CellMethods.Word) : String :=
+  let l := l.filter (fun w => !w.isEmpty)
+  if l.isEmpty then "n" else String.intercalate "+" (l.map (fun w => String.ofList (pctEncodeL w)))
+
+/-- `literal_eval` accepts the value of an interval: here, a number. -/
+def isNumeral (w : Cfdm.CellMethods.Word) : Bool :=
+  !w.isEmpty && w.all (fun c => c.isDigit || c == '.' || c == '-' || c == '+' || c == 'e' || c == 'E') && w.any Char.isDigit
+
+/-- A cell method of the codec model (qualifiers as pairs) from one of the string model. -/
+def cmToM (c : Cfdm.CellMethods.CM) : MCellMethod :=
+  let q (k : String) (v : Option Cfdm.CellMethods.Word) : Props := match v with | some w => [(k, String.ofList w)] | none => []
+  { axes := c.axes.map String.ofList
+    method := if c.method.isEmpty then none else some (String.ofList c.method)
+    quals := q "within" c.within ++ q "where" c.where_ ++ q "over" c.over
+             ++ c.intervals.map (fun i => ("interval", String.ofList i.1 ++ (match i.2 with | some u => " " ++ String.ofList u | none => "")))
+             ++ (match c.comment with | some ws => [("comment", String.intercalate " " (ws.map String.ofList))] | none => []) }
+
+def cmOfM (m : MCellMethod) : Cfdm.CellMethods.CM :=
+  let g (k : String) : Option Cfdm.CellMethods.Word := (m.quals.lookup k).map String.toList
+  { axes := m.axes.map String.toList
+    method := (m.method.getD "").toList
+    within := g "within", where_ := g "where", over := g "over"
+    intervals := (m.quals.filter (fun q => q.1 == "interval")).map (fun q =>
+      match q.2.splitOn " " with
+      | [v] => (v.toList, none)
+      | v :: us => (v.toList, some (String.intercalate " " us).toList)
+      | [] => ([], none))
+    comment := (m.quals.lookup "comment").map (fun c => if c.isEmpty then [] else (c.splitOn " ").map String.toList) }
+
+def parseQuals (s : String) : Option Props :=
+  if s == "_" then some [] else
+  (s.splitOn "|").mapM (fun t => match t.splitOn "~" with
+    | [k, v] => some (dec k, pctDecode v)
+    | _ => none)
+
 def parseCM (s : String) : Option MCellMethod :=
   match s.splitOn "^" with
   | [ax, m, q] => do
-    let q ← parseProps q
+    let q ← parseQuals q
     some { axes := parseNames ax, method := optName m, quals := q }
   | _ => none
 
 /-- Qualifiers keep their order (several `interval` entries). -/
 def showQuals (p : Props) : String :=
-  if p.isEmpty then "_" else String.intercalate "|" (p.map (fun kv => enc kv.1 ++ "~" ++ enc kv.2))
+  if p.isEmpty then "_" else String.intercalate "|" (p.map (fun kv => enc kv.1 ++ "~" ++ pctEncode kv.2))
 
 def showCM (c : MCellMethod) : String := showNames c.axes ++ "^" ++ showOpt c.method ++ "^" ++ showQuals c.quals
 
 def parseCMs (s : String) : Option (List MCellMethod) := if s == "n" then some [] else (s.splitOn "&").mapM parseCM
 def showCMs (l : List MCellMethod) : String := if l.isEmpty then "n" else String.intercalate "&" (l.map showCM)
+
+def parseTerms (s : String) : Option (List (String × Option Key)) :=
+  if s == "n" then some [] else
+  (s.splitOn "+").mapM (fun t => match t.splitOn ":" with
+    | [a, b] => some (dec a, optName b)
+    | _ => none)
+
+def showTerms (l : List (String × Option Key)) : String :=
+  if l.isEmpty then "n" else String.intercalate "+" (l.map (fun tk => enc tk.1 ++ ":" ++ showOpt tk.2))
+
+def parseRef (s : String) : Option (Key × MRef) :=
+  match s.splitOn ";" with
+  | [k, v, cs, ps, ds, ts] => do
+    let ps ← parseProps ps
+    let ds ← parseProps ds
+    let ts ← parseTerms ts
+    some (dec k, { ncvar := optName v, coords := parseNames cs, params := ps, datum := ds, terms := ts })
+  | _ => none
+
+def showRef (kr : Key × MRef) : String :=
+  String.intercalate ";" [enc kr.1, showOpt kr.2.ncvar, showNames kr.2.coords, showProps kr.2.params, showProps kr.2.datum,
+    showTerms kr.2.terms]
 
 def parseField (kv : KV) : Option MField := do
   let nc ← kv.get? "nc"
@@ -136,13 +233,15 @@ def parseField (kv : KV) : Option MField := do
   let a ← (← listBody (← kv.get? "A")).mapM parseAxis
   let c ← (← listBody (← kv.get? "C")).mapM parseEntry
   let m ← (← kv.get? "M") |> parseCMs
-  some { props := p, ncvar := optName nc, data := d, dataAxes := parseNames da, axes := a, cons := c, cms := m }
+  let r ← (← listBody (← kv.get? "R")).mapM parseRef
+  some { props := p, ncvar := optName nc, data := d, dataAxes := parseNames da, axes := a, cons := c, cms := m, refs := r }
 
 def showField (f : MField) : String :=
   "nc=" ++ showOpt f.ncvar ++ " P=" ++ showProps f.props ++ " D=" ++ showArr (some f.data) ++ " DA=" ++ showNames f.dataAxes
   ++ " A=[" ++ String.intercalate "," (f.axes.map showAxis) ++ "]"
   ++ " C=[" ++ String.intercalate "," (f.cons.map showEntry) ++ "]"
   ++ " M=" ++ showCMs f.cms
+  ++ " R=[" ++ String.intercalate "," (f.refs.map showRef) ++ "]"
 
 def parseDim (s : String) : Option NcDim :=
   match s.splitOn ":" with
@@ -163,34 +262,53 @@ def parseMeasures (s : String) : Option (List (String × String)) :=
 def showMeasures (l : List (String × String)) : String :=
   if l.isEmpty then "n" else String.intercalate "+" (l.map (fun mv => enc mv.1 ++ ":" ++ enc mv.2))
 
-def parseVar (s : String) : Option NcVar :=
+def parseGM (s : String) : Option (List (String × List String)) :=
+  if s == "n" then some [] else
+  (s.splitOn "&").mapM (fun t => match t.splitOn "^" with
+    | [v] => some (dec v, [])
+    | [v, cs] => some (dec v, parseNames cs)
+    | _ => none)
+
+def showGM (l : List (String × List String)) : String :=
+  if l.isEmpty then "n" else String.intercalate "&" (l.map (fun g => if g.2.isEmpty then enc g.1 else enc g.1 ++ "^" ++ showNames g.2))
+
+/-- A variable of a file line: the variable (its cell methods parsed with `stop`), its
+`formula_terms` and its `grid_mapping`. -/
+def parseVar (stop : Cfdm.CellMethods.Word → Bool) (s : String) :
+    Option (NcVar × List (String × String) × List (String × List String)) :=
   match s.splitOn ";" with
-  | [n, dims, st, d, att, b, cl, co, ms, an, cm] => do
+  | [n, dims, st, d, att, b, cl, co, ms, an, ws, ft, gm] => do
     let st ← parseBool st
     let d ← if d == "_" then some none else d.toNat?.map some
     let att ← parseProps att
     let ms ← parseMeasures ms
-    let cm ← parseCMs cm
-    some { name := dec n, dims := parseNames dims, isStr := st, data := d, attrs := att, bounds := optName b,
-           climatology := optName cl, coordinates := parseNames co, cellMeasures := ms, ancillary := parseNames an,
-           cellMethods := cm }
+    let ft ← parseMeasures ft
+    let gm ← parseGM gm
+    let cm := ((Cfdm.CellMethods.parse stop isNumeral (parseWords ws)).getD []).map cmToM
+    some ({ name := dec n, dims := parseNames dims, isStr := st, data := d, attrs := att, bounds := optName b,
+            climatology := optName cl, coordinates := parseNames co, cellMeasures := ms, ancillary := parseNames an,
+            cellMethods := cm }, ft, gm)
   | _ => none
 
-def showVar (v : NcVar) : String :=
+def showVar (nc : NcFile) (v : NcVar) : String :=
   String.intercalate ";" [enc v.name, showNames v.dims, showBool v.isStr,
     (match v.data with | none => "_" | some i => toString i), showProps v.attrs, showOpt v.bounds, showOpt v.climatology,
-    showNames v.coordinates, showMeasures v.cellMeasures, showNames v.ancillary, showCMs v.cellMethods]
+    showNames v.coordinates, showMeasures v.cellMeasures, showNames v.ancillary,
+    showWords (Cfdm.CellMethods.writeCMs (v.cellMethods.map cmOfM)),
+    showMeasures ((nc.formulaTerms.lookup v.name).getD []), showGM ((nc.gridMapping.lookup v.name).getD [])]
 
-def parseFile (kv : KV) : Option NcFile := do
+def parseFile (stop : Cfdm.CellMethods.Word → Bool) (kv : KV) : Option NcFile := do
   let d ← (← listBody (← kv.get? "D")).mapM parseDim
-  let v ← (← listBody (← kv.get? "V")).mapM parseVar
+  let v ← (← listBody (← kv.get? "V")).mapM (parseVar stop)
   let g ← (← kv.get? "G") |> parseProps
   let e ← kv.get? "E"
-  some { dims := d, vars := v, globals := g, externals := parseNames e }
+  some { dims := d, vars := v.map (·.1), globals := g, externals := parseNames e
+         formulaTerms := v.filterMap (fun x => if x.2.1.isEmpty then none else some (x.1.name, x.2.1))
+         gridMapping := v.filterMap (fun x => if x.2.2.isEmpty then none else some (x.1.name, x.2.2)) }
 
 def showFile (nc : NcFile) : String :=
   "D=[" ++ String.intercalate "," (nc.dims.map showDim) ++ "]"
-  ++ " V=[" ++ String.intercalate "," (nc.vars.map showVar) ++ "]"
+  ++ " V=[" ++ String.intercalate "," (nc.vars.map (showVar nc)) ++ "]"
   ++ " G=" ++ showProps nc.globals ++ " E=" ++ showNames nc.externals
 
 def showErr : Err → String
@@ -198,12 +316,27 @@ def showErr : Err → String
   | .nameInUse => "raised:RuntimeError"
   | .keyError => "raised:KeyError"
 
+/-- Is the field inside the class of the writer model?  Two constructs that would share one
+netCDF variable are outside it, except a domain ancillary that is equal to a coordinate construct
+or to an earlier domain ancillary (`danPlan`). -/
+def sharedOutside (o : Opts) (f : MField) : Bool :=
+  match applyCsn f with
+  | .error _ => false
+  | .ok f' =>
+    let shared := ((danPlan f' (axesPhase o f')).filter (fun p => p.2.isSome)).map (fun p => p.1.key)
+    !noShared { f' with cons := f'.cons.filter (fun e => !shared.contains e.key) } f'.dataAxes
+
+def showFields (fs : List MField) : String :=
+  match fs with
+  | [] => "none"
+  | fs => String.intercalate " ## " (fs.map showField)
+
 def run (sub : String) (kv : KV) : String :=
   match sub with
   | "write" =>
     match parseField kv, (kv.get? "sc").bind parseBool, (kv.get? "co").bind parseBool with
     | some f, some sc, some co =>
-      if !noShared f f.dataAxes then "outside:shared-variable" else
+      if sharedOutside { scalar := sc, coordinates := co } f then "outside:shared-variable" else
       match writeField { scalar := sc, coordinates := co } f with
       | .ok nc => showFile nc
       | .error e => showErr e
@@ -211,18 +344,25 @@ def run (sub : String) (kv : KV) : String :=
   | "writeold" =>
     match parseField kv, (kv.get? "sc").bind parseBool, (kv.get? "co").bind parseBool with
     | some f, some sc, some co =>
-      if !noShared f f.dataAxes then "outside:shared-variable" else
+      if sharedOutside { scalar := sc, coordinates := co } f then "outside:shared-variable" else
       match writeFieldOld { scalar := sc, coordinates := co } f with
       | .ok nc => showFile nc
       | .error e => showErr e
     | _, _, _ => "bad-op"
-  | "read" =>
-    match parseFile kv with
-    | some nc =>
-      match readFile nc with
-      | [] => "none"
-      | fs => String.intercalate " ## " (fs.map showField)
+  | "class" =>
+    -- is the field in the class of the round-trip theorems? (informational)
+    match parseField kv with
+    | some f =>
+      let shared := (danPlan f (axesPhase {} f)).any (fun p => p.2.isSome)
+      "A=" ++ showBool (decide (WFField f)) ++ " B=" ++ showBool (decide (WFFieldB f)) ++ " shared=" ++ showBool shared
     | none => "bad-op"
+  | "read" =>
+    match parseFile Cfdm.CellMethods.stopNew kv, parseFile Cfdm.CellMethods.stopOld kv with
+    | some nc, some ncOld =>
+      let a := showFields (readFile nc)
+      let b := showFields (readFile ncOld)
+      if a == b then a else a ++ " %%OLD%% " ++ b
+    | _, _ => "bad-op"
   | _ => "bad-op"
 
 end Cfdm.Driver.C01
